@@ -72,7 +72,10 @@ def decode(data: bytes):
         elif k == 21:
             ops.append(["X"])
         elif k == 22:
-            ops.append(["D", bool(fdp.ConsumeBool()), [0.3, 0.5, 0.8, 1.0][fdp.ConsumeIntInRange(0, 3)]])
+            if fdp.ConsumeBool():
+                ops.append(["D", bool(fdp.ConsumeBool()), [0.3, 0.5, 0.8, 1.0][fdp.ConsumeIntInRange(0, 3)]])
+            else:
+                ops.append(["CB", bool(fdp.ConsumeBool())])
         else:
             if ORACLE == "C04":
                 ops.append(["RS", fdp.ConsumeIntInRange(0, 200)] if fdp.ConsumeBool() else ["FM", bool(fdp.ConsumeBool()), base, 1])
